@@ -7,6 +7,7 @@ feature tree are decided by the bounded stand-in."""
 from contracts.api import contract, spec, TR, implies, iff, kids, first, rest, is_empty
 from contracts.spec_ctc import *
 from contracts.spec_xml import *
+from contracts.spec_tree import *
 
 
 @contract(TR + 'featureide_writer.py', '_get_ctc_info', prop='C07')
@@ -31,3 +32,45 @@ class FideGetCtcInfo:
 
     def post_denotation(ast_node, result):
         return same_truth_j(ast_node, result)
+
+
+# ------------------------------------------------------------------ the feature tree: element tag and attributes of one feature
+@contract(TR + 'featureide_writer.py', '_tag_element', prop='C07')
+class FideTagElement:
+    """feature / or / alt / and as FeatureIDE defines them: a leaf is a <feature>, a feature whose children form an or-group
+    an <or>, an alternative group an <alt>, anything else an <and>"""
+    def pre(feature):
+        return wf()
+
+    def post_leaf(feature, result):
+        return (result == 'feature') == (len(feature.relations) == 0)
+
+    def post_or(feature, result):
+        return (result == 'or') == (len(feature.relations) > 0 and any(rclass(r) == OR_ for r in feature.relations))
+
+    def post_alt(feature, result):
+        return (result == 'alt') == (len(feature.relations) > 0 and not any(rclass(r) == OR_ for r in feature.relations)
+                                     and any(rclass(r) == ALT for r in feature.relations))
+
+    def post_and(feature, result):
+        return result in ['feature', 'or', 'alt', 'and']
+
+
+@contract(TR + 'featureide_writer.py', '_get_attributes', prop='C07')
+class FideGetAttributes:
+    """mandatory="true" exactly for mandatory features, abstract="true" exactly for abstract ones (independently of each
+    other), the name verbatim"""
+    def pre(feature):
+        return wf()
+
+    def post_mandatory(feature, result):
+        return ('mandatory' in result) == (feature.parent is not None and rclass(owner_rel(feature)) == MAND)
+
+    def post_abstract(feature, result):
+        return ('abstract' in result) == feature.is_abstract
+
+    def post_name(feature, result):
+        return result['name'] == feature.name
+
+    def post_values(feature, result):
+        return all(result[k] == 'true' for k in result if k != 'name')
